@@ -9,6 +9,9 @@ Full statement (structure part): for every nesting of lists, tuples, sets, dicts
 namedtuples and iterators, `repack (map f collections) = mapColl f args` — every collection replaced by its
 value, every other leaf and the whole structure unchanged (iterators become lists) — `repack_unpack`.
 With `traverse=False` only top-level collections are replaced — `traverse_false`.
+`dask.persist` / `dask.optimize` return the same structure with every collection replaced by its rebuilt collection;
+types, metadata and values are preserved position by position as soon as the per-class `__dask_postpersist__`
+rebuilds preserve them (`persist_spec`, `persist_preserves`; the per-class part is validated by the harness).
 The keys handed to the scheduler come back in the order of the collections even when the optimizer groups
 operands by their low level optimizer — `keys_restored` (Props/C13.lean).
 -/
@@ -160,6 +163,56 @@ theorem see_nodup (t : Nat) (seen : List Nat) (h : seen.Nodup) : (see t seen).1.
           | some j => simp [h2] at hi
 
 end
+
+/-! ## persist / optimize -/
+
+mutual
+theorem mapColl_comp {α β γ : Type} (f : α → β) (g : β → γ) : ∀ t : Tree α, mapColl g (mapColl f t) = mapColl (fun a => g (f a)) t
+  | .coll c => rfl
+  | .leaf v => rfl
+  | .list xs => by simp only [mapColl, mapCollL_comp f g xs]
+  | .tuple xs => by simp only [mapColl, mapCollL_comp f g xs]
+  | .set xs => by simp only [mapColl, mapCollL_comp f g xs]
+  | .dict kvs => by simp only [mapColl, mapCollP_comp f g kvs]
+  | .odict kvs => by simp only [mapColl, mapCollP_comp f g kvs]
+  | .dataclass c xs => by simp only [mapColl, mapCollL_comp f g xs]
+  | .namedtuple c xs => by simp only [mapColl, mapCollL_comp f g xs]
+  | .iter xs => by simp only [mapColl, mapCollL_comp f g xs]
+theorem mapCollL_comp {α β γ : Type} (f : α → β) (g : β → γ) : ∀ ts : List (Tree α),
+    mapCollL g (mapCollL f ts) = mapCollL (fun a => g (f a)) ts
+  | [] => rfl
+  | x :: xs => by simp only [mapCollL, mapColl_comp f g x, mapCollL_comp f g xs]
+theorem mapCollP_comp {α β γ : Type} (f : α → β) (g : β → γ) : ∀ ts : List (Tree α × Tree α),
+    mapCollP g (mapCollP f ts) = mapCollP (fun a => g (f a)) ts
+  | [] => rfl
+  | (k, v) :: r => by simp only [mapCollP, mapColl_comp f g k, mapColl_comp f g v, mapCollP_comp f g r]
+end
+
+/-- **`dask.persist(*args)` / `dask.optimize(*args)`** = `repack([rebuild_i(…) for every collection])`: the result is the
+    argument structure with every collection `t` replaced by the collection `rebuild t` built for it (iterators become
+    lists, everything else unchanged). -/
+theorem persist_spec {β : Type} (rebuild : Nat → β) (args : List (Tree Nat)) :
+    repack ((unpackArgs args).1.map rebuild) (unpackArgs args).2 = some (.tuple (mapCollL rebuild args)) :=
+  repack_unpack rebuild args
+
+/-- **Type and metadata are preserved**: if rebuilding keeps the type and metadata `md` of every collection
+    (`__dask_postpersist__` of the collection classes: assumed, validated per class by the harness), then the structure
+    returned by persist / optimize shows, position by position, the same types and metadata as the arguments — and if
+    every rebuilt collection computes to the value of its original (`val`), computing the returned structure gives what
+    computing the arguments gives. -/
+theorem persist_preserves {β μ V : Type} (rebuild : Nat → β) (md : Nat → μ) (md' : β → μ) (val : Nat → V) (val' : β → V)
+    (hm : ∀ t, md' (rebuild t) = md t) (hv : ∀ t, val' (rebuild t) = val t) (args : List (Tree Nat)) :
+    ∃ out, repack ((unpackArgs args).1.map rebuild) (unpackArgs args).2 = some (.tuple out) ∧
+      mapCollL md' out = mapCollL md args ∧ mapCollL val' out = mapCollL val args := by
+  refine ⟨mapCollL rebuild args, persist_spec rebuild args, ?_, ?_⟩
+  · rw [mapCollL_comp]; congr 1; funext t; exact hm t
+  · rw [mapCollL_comp]; congr 1; funext t; exact hv t
+
+example : ∃ out, repack ((unpackArgs [.list [.coll 7, .iter [.coll 9, .leaf 1]]]).1.map (fun t => (t, "rebuilt")))
+      (unpackArgs [.list [.coll 7, .iter [.coll 9, .leaf 1]]]).2 = some (.tuple out) ∧
+      mapCollL Prod.fst out = mapCollL id [.list [.coll 7, .iter [.coll 9, .leaf 1]]] ∧
+      mapCollL (fun p : Nat × String => p.1 + 100) out = mapCollL (· + 100) [.list [.coll 7, .iter [.coll 9, .leaf 1]]] :=
+  persist_preserves (fun t => (t, "rebuilt")) id Prod.fst (· + 100) (fun p => p.1 + 100) (fun _ => rfl) (fun _ => rfl) _
 
 /-! ## traverse=False -/
 
